@@ -643,7 +643,47 @@ def check_r4(facts, rep, crate):
         where = "%s (%s)" % (loc_str(b.loc), b.path)
         names = sorted(set(m[2]["name"] for m in muts))
         # Buf::advance removes a chunk only when it is empty (length already accounted by the delta): still needs a store
-        if has_store:
+        # path-wise: no way through the function mutates the chunk vector (or replaces it) without a write of the cached length on that path
+        store_bbs = set(bb_ for (ob, bb_, _si, _s, _d, how) in stores(crate) if ob is b)
+        mut_bbs = set(m[0] for m in muts)
+        for bi2, blk2 in enumerate(b.blocks):
+            if bi2 not in b.reach0:
+                continue
+            for s2 in blk2["stmts"]:
+                if s2["k"] == "Assign":
+                    pr2 = s2["lhs"].get("p") or []
+                    fl2 = [e for e in pr2 if isinstance(e, dict) and "f" in e]
+                    if fl2 and fl2[-1]["f"] == "data" and (fl2[-1].get("o") or "").endswith("LongChain") and isinstance(pr2[-1], dict):
+                        mut_bbs.add(bi2)          # `self.data = ...`
+        rets = [x for x in range(len(b.blocks)) if b.term(x)["k"] == "Return"]
+        unpaired = None
+        for mb in sorted(mut_bbs):
+            if mb in store_bbs:
+                continue
+            before = mb in b.reachable_from(0, cut=store_bbs) or mb == 0
+            starts = [mb]
+            cm = callee(b.term(mb)) if b.term(mb)["k"] == "Call" else None
+            if cm and cm["name"] in ("pop", "pop_front", "pop_back"):
+                # `pop()` that returns None removed nothing: only the Some continuation owes a length update
+                somes = []
+                for gb in range(len(b.blocks)):
+                    if b.term(gb)["k"] != "SwitchInt":
+                        continue
+                    g = guard_at(facts, b, tr, gb)
+                    if g is not None and g.kind == "discr" and (g.adt or "").endswith("option::Option") and \
+                            any(x.kind == "call" and x[4] == mb for x in walk(g.pred)):
+                        somes += [sb for sb, v in g.edges if v == "Some"]
+                if somes:
+                    starts = somes
+            after = any(r in b.reachable_from(st_, cut=store_bbs) for st_ in starts for r in rets)
+            if before and after:
+                unpaired = mb
+                break
+        if has_store and unpaired is not None:
+            rep.bad(rid, b.path + "/path", "%s (%s)" % (loc_str(b.term(unpaired)["loc"]), b.path),
+                    "on some path through this function the chunk vector is changed (at %s) but the cached length is not written: len() / remaining() "
+                    "then disagree with the contents (e.g. an early return placed before the length update)" % loc_str(b.term(unpaired)["loc"]))
+        elif has_store:
             rep.ok(rid, b.path, where, "mutates data via %s and updates total_remaining_len" % names, nontrivial=False)
         else:
             rep.bad(rid, b.path, where, "the chunk vector is mutated (%s) but the cached length is never written in this function: "
